@@ -44,6 +44,12 @@ Theorem c02_typed_getters : forall b u,
 Proof. exact c02_typed_total_proof. Qed.
 Print Assumptions c02_typed_getters.
 
+(* the next-hop accessors: mp_next_hop, and find_next_hop for every address family asked for *)
+Theorem c02_next_hop_accessors : forall b u,
+  a_mp_next_hop b u <> Panic /\ (forall fam, a_find_next_hop b u fam <> Panic).
+Proof. exact c02_next_hop_total_proof. Qed.
+Print Assumptions c02_next_hop_accessors.
+
 Theorem c02_community_iterators : forall b u code k,
   In (code, k) [(8, 4%nat); (16, 8%nat); (25, 20%nat); (32, 12%nat)] -> a_communities b u code k <> Panic.
 Proof. exact c02_communities_total_proof. Qed.
